@@ -846,7 +846,9 @@ def run(ctx: Ctx) -> None:
                "remote jobs always complete (fakes); virtual time",
                "CPython with the GIL: sequentially consistent memory")
     _REPORTED.clear()
-    names = ctx.pick(["docker", "aws_glue"], list(ADAPTERS))
+    # all five executors in both tiers (the quick tier used to run docker and aws_glue only and missed a change in
+    # the aws_batch monitor); the tiers differ in scenarios and schedule budgets
+    names = list(ADAPTERS)
     if os.environ.get("VERIF_C10_EXECUTORS"):     # developer switch: e.g. VERIF_C10_EXECUTORS=aws_batch,k8s
         names = os.environ["VERIF_C10_EXECUTORS"].split(",")
     names = [nm for nm in names if nm in ADAPTERS]
